@@ -22,6 +22,7 @@ fixed("C01","C01/pack-error/URI/octet-field-over-1025","714ee18","URI target / C
 fixed("C02","panic/UnpackRRWithHeader(short RDLENGTH)/DS/.unpackStringHex","57c788c","UnpackRRWithHeader panicked (slice bounds out of range) for DS, DNSKEY, RRSIG, TLSA, SSHFP, IPSECKEY ... when the header's RDLENGTH ends before the type's fixed fields do and the buffer continues behind the RDATA (reported by a round-5 sub-agent as present on the clean checkout)")
 fixed("C03","C03/IsDomainName-true-model-false/wire-length-256","f4d6b59","names of 256 and 257 wire octets were accepted by IsDomainName and packed by PackDomainName although UnpackDomainName rejects them (255-octet limit)")
 fixed("C03","C03/packer-accepts-non-fqdn/random-text","bb43edc","IsFqdn counted the backslashes before the final dot in runes: a multi-byte UTF-8 sequence in front of them flipped the parity, so names ending in an escaped dot were packed and some fully-qualified ones refused")
+fixed("C12","C12/datagram-real-reply-missed/undecodable-foreign-reply","dd8f6b7","a datagram with another ID whose body does not unpack (or whose TSIG does not verify) ended the client exchange with that error although the matching reply arrived right behind it: the skip loop broke on any error instead of on read errors only (also C12/datagram-no-deadline-error when only such replies arrive)")
 # ---- C16
 fixed("C16","C16/copy-alias/OPT/*dns.EDNS0_SUBNET.Address","e6225bc","Copy/Msg.Copy shared the Address slice of EDNS0_SUBNET and the AlgCode slices of EDNS0_DAU/DHU/N3U with the original")
 # ---- C17
